@@ -151,8 +151,11 @@ func (it *Interp) Cfg(fn interface{}) {}
 
 // IntervalString renders only the interval of an integer (diagnostics).
 func IntervalString(v Value) string {
-	if i, ok := v.(*Int); ok {
+	if i, ok := v.(*Int); ok && i != nil {
 		return "[" + itoa(i.Lo) + "," + itoa(i.Hi) + "]"
+	}
+	if i, ok := v.(*Int); ok && i == nil {
+		return "<unknown>"
 	}
 	return ValueString(v)
 }
@@ -242,4 +245,13 @@ func (it *Interp) DependsOnHost(d Deps) bool {
 		}
 	}
 	return false
+}
+
+// LenCells lists the cells whose slice length is used by '< len' proofs.
+func (it *Interp) LenCells() []CellKey {
+	var out []CellKey
+	for k := range it.lenCells {
+		out = append(out, k)
+	}
+	return out
 }
